@@ -6,7 +6,7 @@ import numpy as np
 from hypothesis import strategies as st
 from hypothesis.stateful import RuleBasedStateMachine, initialize, invariant, precondition, rule
 
-from .. import strat
+from .. import e2e, strat
 from ..core import Part, Result
 
 ID = "C14"
@@ -407,6 +407,12 @@ def check_pipeline(case):
     audited = STATS.get("audited", 0)
     res.label("run-ok" if r.ok else "run-failed", f"opts={' '.join(case['opts']) or 'default'}",
               "debump-rotation" if c04.CALLS else "no-rotation", f"audited>={min(audited // 50 * 50, 500)}")  # fmt: skip
+    if r.ok:
+        # end of the run: nothing is "under construction" any more - every atom of the structure must be
+        # in the map (an atom that was placed but never registered is invisible to every later query)
+        lost = [f"{a.name} of {a.residue}" for x in r.bio.residues for a in x.atoms if getattr(a, "cell", None) is None]
+        if lost:
+            res.bad("C14:pipeline:never-registered", f"{len(lost)} atoms of the final structure are in no cell, e.g. {lost[:3]}")
     for key, msgs in STATS.items():
         if key == "ghost":
             res.bad("C14:pipeline:ghost-returned", msgs[0])
@@ -425,6 +431,7 @@ def check_pipeline(case):
 
 def parts(tier):
     return [
+        Part("nettable", check_pipeline, cases=lambda: e2e.network_cases("nettable", tier), exhaustive=True),
         Part("cells", check_cells, machine=machine, budget=dict(quick=1600, thorough=16000),
              machine_steps=dict(quick=40, thorough=60), shrink_key="ops"),  # fmt: skip
         Part("pipeline", check_pipeline, strategy=pipeline_case(), budget=dict(quick=240, thorough=4000)),
